@@ -1358,3 +1358,953 @@ Section Proofs.
     unfold Pe. cbn [Pn Pc]. rewrite forallb_flat_map. apply forallb_ext_in. intros t _.
     apply req_flat. intros f' s H. unfold uq_impl. rewrite (insts_nodata f' s H). destruct (kind vs s); reflexivity.
   Qed.
+
+  (* ----------------------------------------------------------------------------------------- *)
+  (* unique: lyd_validate_unique = RFC 7950 7.8.3 when no default can be out of use               *)
+  (* ----------------------------------------------------------------------------------------- *)
+  Definition dflt_of (p : list sid) : option bytes :=
+    match si_dflts (info vs (last p 0)) with d :: _ => Some d | [] => None end.
+  Definition uqv (fc : forest) (p : list sid) : option bytes :=
+    match uq_find fc p with Some x => Some (d_val x) | None => dflt_of p end.
+  Definition olist (o : option bytes) : list bytes := match o with Some v => [v] | None => [] end.
+
+  Lemma uq_val_uqv n p : uq_val vs n p = uqv (d_ch n) p.
+  Proof. reflexivity. Qed.
+
+  Lemma eff_in_none f s t : forall eff chd, existsb (N.eqb s) (st_sids t) = false -> eff_in f eff chd s t = None.
+  Proof.
+    induction t as [s' ch IH|cid m cs IH|c d ch IH] using stree_ind'; intros eff chd H; cbn [eff_in st_sids] in *;
+      rewrite Forall_forall in IH.
+    - cbn [existsb] in H. rewrite orb_false_r in H. rewrite N.eqb_sym, H. reflexivity.
+    - rewrite existsb_flat_map in H. pose proof (existsb_false_inv _ _ H) as Hc.
+      generalize (existsb (sub_has_data f) cs). intro b.
+      clear H. induction cs as [|x r IHr]; cbn [first_some]; [reflexivity|].
+      rewrite (IH x (or_introl eq_refl) eff b (Hc x (or_introl eq_refl))).
+      apply IHr; intros y Hy; [apply IH|apply Hc]; right; exact Hy.
+    - rewrite existsb_flat_map in H. pose proof (existsb_false_inv _ _ H) as Hc.
+      generalize (eff && (sub_has_data f (TCase c d ch) || d && negb chd)). intro b.
+      clear H. induction ch as [|x r IHr]; cbn [first_some]; [reflexivity|].
+      rewrite (IH x (or_introl eq_refl) b false (Hc x (or_introl eq_refl))).
+      apply IHr; intros y Hy; [apply IH|apply Hc]; right; exact Hy.
+  Qed.
+
+  Lemma plain_in_effect l f s : plain l s = true -> in_effect l f s = true.
+  Proof.
+    unfold plain, in_effect. induction l as [|t l IH]; cbn [first_some]; [discriminate|].
+    destruct t as [s' ch|cid m cs|c d ch]; cbn [plain_in].
+    - cbn [eff_in]. destruct (s' =? s); [reflexivity|exact IH].
+    - destruct (existsb (N.eqb s) (st_sids (TChoice cid m cs))) eqn:E; [discriminate|].
+      rewrite (eff_in_none f s _ true false E). exact IH.
+    - destruct (existsb (N.eqb s) (st_sids (TCase c d ch))) eqn:E; [discriminate|].
+      rewrite (eff_in_none f s _ true false E). exact IH.
+  Qed.
+
+  Lemma last_cons2 (s s2 : sid) p2 : last (s :: s2 :: p2) 0 = last (s2 :: p2) 0.
+  Proof. reflexivity. Qed.
+
+  Lemma uvals_nil_nodflt : forall p l, dflt_of p = None -> uvals vs l [] p = [].
+  Proof.
+    induction p as [|s p IH]; intros l H; [reflexivity|].
+    destruct p as [|s2 p2].
+    - cbn [uvals insts filter]. unfold dflt_of in H. cbn [last] in H. unfold leaf_dflt.
+      destruct (si_dflts (info vs s)); [|discriminate]. destruct (in_effect l [] s); reflexivity.
+    - cbn [uvals insts filter]. destruct (kind vs s) as [[|]| | | |]; try reflexivity.
+      destruct (in_effect l [] s); [|reflexivity]. apply IH. unfold dflt_of in *. rewrite last_cons2 in H. exact H.
+  Qed.
+
+  Lemma uvals_nil_plain : forall p s l d, path_plain vs l (s :: p) = true -> dflt_of (s :: p) = Some d ->
+    uvals vs l [] (s :: p) = [d].
+  Proof.
+    induction p as [|s2 p2 IH]; intros s l d Hp H.
+    - cbn [uvals insts filter]. cbn [path_plain] in Hp. rewrite (plain_in_effect l [] s Hp).
+      unfold dflt_of in H. cbn [last] in H. unfold leaf_dflt. destruct (si_dflts (info vs s)); [discriminate|]. inversion H. reflexivity.
+    - cbn [uvals insts filter]. cbn [path_plain] in Hp. apply andb_true_iff in Hp. destruct Hp as [Hp Hp3].
+      apply andb_true_iff in Hp. destruct Hp as [Hp1 Hp2]. rewrite (plain_in_effect l [] s Hp1).
+      destruct (kind vs s) as [[|]| | | |]; try discriminate. apply IH; [exact Hp3|]. unfold dflt_of in *. rewrite last_cons2 in H. exact H.
+  Qed.
+
+  Lemma common_olist a b :
+    common (olist a) (olist b) = match a, b with Some x, Some y => beq_bytes x y | _, _ => false end.
+  Proof.
+    unfold common. destruct a as [x|], b as [y|]; cbn [olist existsb]; try reflexivity. rewrite !orb_false_r. reflexivity.
+  Qed.
+
+  Lemma kind_multi s : multi (vs_info vs) s = match kind vs s with KList | KLeafList => true | _ => false end.
+  Proof. reflexivity. Qed.
+
+  Lemma insts_single l fc s : all_ctx (single_ctx vs) l fc = true -> multi (vs_info vs) s = false ->
+    (insts fc s = [] /\ find_sid fc s = None) \/ (exists c, insts fc s = [c] /\ find_sid fc s = Some c /\ In c fc /\ d_sid c = s).
+  Proof.
+    intros Hs Hm. apply all_ctx_iff in Hs. destruct Hs as [Hs _].
+    pose proof (single_insts fc s Hs Hm) as Hl. unfold find_sid. rewrite find_filter_hd. fold (insts fc s).
+    destruct (insts fc s) as [|c [|? ?]] eqn:E; [left; split; reflexivity| |cbn in Hl; lia].
+    right. exists c. repeat split. assert (Hc : In c (insts fc s)) by (rewrite E; left; reflexivity).
+    - apply filter_In in Hc. apply Hc.
+    - assert (Hc : In c (insts fc s)) by (rewrite E; left; reflexivity). apply filter_In in Hc. apply N.eqb_eq, Hc.
+  Qed.
+
+  Lemma uvals_one l f s :
+    uvals vs l f [s] = match insts f s with
+                       | [] => if in_effect l f s then leaf_dflt vs s else []
+                       | is => map d_val is
+                       end.
+  Proof. reflexivity. Qed.
+
+  Lemma uvals_cons2 l f s s2 p2 :
+    uvals vs l f (s :: s2 :: p2) =
+    match insts f s with
+    | [] => match kind vs s with
+            | KCont false => if in_effect l f s then uvals vs (st_children l s) [] (s2 :: p2) else []
+            | _ => []
+            end
+    | is => flat_map (fun d => uvals vs (st_children l s) (d_ch d) (s2 :: p2)) is
+    end.
+  Proof. reflexivity. Qed.
+
+  Lemma uq_find_cons2 fc s s2 p2 :
+    uq_find fc (s :: s2 :: p2) = match find_sid fc s with Some c => uq_find (d_ch c) (s2 :: p2) | None => None end.
+  Proof. reflexivity. Qed.
+
+  Lemma path_plain_cons2 l s s2 p2 :
+    path_plain vs l (s :: s2 :: p2) =
+    plain l s && match kind vs s with KCont false => true | _ => false end && path_plain vs (st_children l s) (s2 :: p2).
+  Proof. reflexivity. Qed.
+
+  Lemma upath_ok_cons2 s s2 p2 :
+    upath_ok vs (s :: s2 :: p2) = match kind vs s with KCont _ => upath_ok vs (s2 :: p2) | _ => false end.
+  Proof. reflexivity. Qed.
+
+  Lemma uvals_impl : forall p l fc,
+    all_ctx (single_ctx vs) l fc = true -> upath_ok vs p = true ->
+    (forall d, dflt_of p = Some d -> path_plain vs l p = true) ->
+    uvals vs l fc p = olist (uqv fc p).
+  Proof.
+    induction p as [|s p IH]; intros l fc Hs Hu Hp; [cbn in Hu; discriminate|].
+    destruct p as [|s2 p2].
+    - cbn [upath_ok] in Hu. assert (Hm : multi (vs_info vs) s = false) by (rewrite kind_multi; destruct (kind vs s); try discriminate; reflexivity).
+      rewrite uvals_one. unfold uqv. cbn [uq_find].
+      destruct (insts_single l fc s Hs Hm) as [[E1 E2]|[c [E1 [E2 _]]]]; rewrite E1, E2.
+      + destruct (dflt_of [s]) as [d|] eqn:Ed.
+        * specialize (Hp d eq_refl). cbn [path_plain] in Hp. rewrite (plain_in_effect l fc s Hp).
+          unfold dflt_of in Ed. cbn [last] in Ed. unfold leaf_dflt. destruct (si_dflts (info vs s)); [discriminate|]. inversion Ed. reflexivity.
+        * unfold dflt_of in Ed. cbn [last] in Ed. unfold leaf_dflt. destruct (si_dflts (info vs s)); [|discriminate].
+          destruct (in_effect l fc s); reflexivity.
+      + reflexivity.
+    - rewrite upath_ok_cons2 in Hu.
+      assert (Hm : multi (vs_info vs) s = false) by (rewrite kind_multi; destruct (kind vs s); try discriminate; reflexivity).
+      assert (Hu2 : upath_ok vs (s2 :: p2) = true) by (destruct (kind vs s); try discriminate; exact Hu).
+      clear Hu. rewrite uvals_cons2. unfold uqv. rewrite uq_find_cons2.
+      destruct (insts_single l fc s Hs Hm) as [[E1 E2]|[c [E1 [E2 [Hc Hcs]]]]]; rewrite E1, E2.
+      + destruct (dflt_of (s :: s2 :: p2)) as [d|] eqn:Ed.
+        * specialize (Hp d eq_refl). rewrite path_plain_cons2 in Hp. apply andb_true_iff in Hp. destruct Hp as [Hp Hp3].
+          apply andb_true_iff in Hp. destruct Hp as [Hp1 Hp2]. rewrite (plain_in_effect l fc s Hp1).
+          destruct (kind vs s) as [[|]| | | |]; try discriminate.
+          apply uvals_nil_plain; [exact Hp3|]. unfold dflt_of in *. rewrite last_cons2 in Ed. exact Ed.
+        * assert (Ed2 : dflt_of (s2 :: p2) = None) by (unfold dflt_of in *; rewrite last_cons2 in Ed; exact Ed).
+          destruct (kind vs s) as [[|]| | | |]; try reflexivity. destruct (in_effect l fc s); [|reflexivity].
+          apply uvals_nil_nodflt. exact Ed2.
+      + cbn [flat_map]. rewrite app_nil_r.
+        assert (Eq : match uq_find (d_ch c) (s2 :: p2) with Some x => Some (d_val x) | None => dflt_of (s :: s2 :: p2) end = uqv (d_ch c) (s2 :: p2)).
+        { unfold uqv, dflt_of. rewrite last_cons2. reflexivity. }
+        rewrite Eq. apply IH; [|exact Hu2|].
+        * apply all_ctx_iff in Hs. destruct Hs as [_ Hs]. rewrite <- Hcs. apply Hs, Hc.
+        * intros d Hd. assert (Hd' : dflt_of (s :: s2 :: p2) = Some d) by (unfold dflt_of in *; rewrite last_cons2; exact Hd).
+          specialize (Hp d Hd'). rewrite path_plain_cons2 in Hp. apply andb_true_iff in Hp. apply Hp.
+  Qed.
+
+  Definition wfu (l : list stree) : Prop := forall t, In t l -> uniq_plain_t vs t = true.
+
+  Lemma uniques_of_ok s u p : uniq_ok vs = true -> In u (uniques_of vs s) -> In p u -> upath_ok vs p = true.
+  Proof.
+    unfold uniq_ok, uniques_of. intros H Hu Hp. destruct (find (fun e => fst e =? s) (vs_uniq vs)) as [e|] eqn:E; [|destruct Hu].
+    apply find_some in E. destruct E as [E _]. rewrite forallb_forall in H. specialize (H e E).
+    rewrite forallb_forall in H. specialize (H u Hu). rewrite forallb_forall in H. apply H, Hp.
+  Qed.
+
+  Lemma st_find_plain s t ch : uniq_plain_t vs t = true -> st_find s t = Some ch ->
+    (forall u p d, In u (uniques_of vs s) -> In p u -> dflt_of p = Some d -> path_plain vs ch p = true) /\ wfu ch.
+  Proof.
+    revert ch. induction t as [s' c IH|cid m cs IH|c d cc IH] using stree_ind'; intros ch Hd Hf;
+      cbn [st_find uniq_plain_t] in *; rewrite Forall_forall in IH.
+    - destruct (s' =? s) eqn:E; [|discriminate]. apply N.eqb_eq in E. subst s'. inversion Hf; subst.
+      apply andb_true_iff in Hd. destruct Hd as [Hd1 Hd2]. rewrite forallb_forall in Hd1, Hd2. split; [|intros t Ht; apply Hd2, Ht].
+      intros u p d Hu Hp Hdf. specialize (Hd1 u Hu). rewrite forallb_forall in Hd1. specialize (Hd1 p Hp).
+      unfold dflt_of in Hdf. destruct (si_dflts (info vs (last p 0))) eqn:Esd; [discriminate|].
+      change (@last N p 0) with (@last sid p 0) in Hd1. rewrite Esd in Hd1. exact Hd1.
+    - rewrite forallb_forall in Hd. destruct (first_some_in _ _ _ Hf) as [x [Hx Ex]]. apply (IH x Hx ch (Hd x Hx) Ex).
+    - rewrite forallb_forall in Hd. destruct (first_some_in _ _ _ Hf) as [x [Hx Ex]]. apply (IH x Hx ch (Hd x Hx) Ex).
+  Qed.
+
+  Lemma st_children_wfu l s : wfu l -> wfu (st_children l s).
+  Proof.
+    intro H. unfold st_children. destruct (first_some (st_find s) l) as [ch|] eqn:E; [|intros t []].
+    destruct (first_some_in _ _ _ E) as [x [Hx Ex]]. apply (st_find_plain s x ch (H x Hx) Ex).
+  Qed.
+
+  Lemma st_find_some s t : In s (st_sids t) -> st_find s t <> None.
+  Proof.
+    induction t as [s' c IH|cid m cs IH|c d cc IH] using stree_ind'; cbn [st_sids st_find]; rewrite Forall_forall in IH.
+    - intros [->|[]]. rewrite N.eqb_refl. discriminate.
+    - intro H. apply in_flat_map in H. destruct H as [x [Hx Hs]]. clear -IH Hx Hs.
+      induction cs as [|y r IHr]; [destruct Hx|]. cbn [first_some]. destruct (st_find s y) eqn:E; [discriminate|].
+      destruct Hx as [->|Hx]; [exfalso; apply (IH x (or_introl eq_refl) Hs E)|].
+      apply IHr; [intros z Hz; apply IH; right; exact Hz|exact Hx].
+    - intro H. apply in_flat_map in H. destruct H as [x [Hx Hs]]. clear -IH Hx Hs.
+      induction cc as [|y r IHr]; [destruct Hx|]. cbn [first_some]. destruct (st_find s y) eqn:E; [discriminate|].
+      destruct Hx as [->|Hx]; [exfalso; apply (IH x (or_introl eq_refl) Hs E)|].
+      apply IHr; [intros z Hz; apply IH; right; exact Hz|exact Hx].
+  Qed.
+
+  Lemma existsb_ext_in {A} (p q : A -> bool) l : (forall x, In x l -> p x = q x) -> existsb p l = existsb q l.
+  Proof.
+    intro H. induction l as [|x l IH]; cbn [existsb]; [reflexivity|]. rewrite (H x (or_introl eq_refl)), IH; [reflexivity|].
+    intros y Hy. apply H. right. exact Hy.
+  Qed.
+
+  Lemma pairwise_ext_in {A} (r r' : A -> A -> bool) l :
+    (forall a b, In a l -> In b l -> r a b = r' a b) -> pairwise r l = pairwise r' l.
+  Proof.
+    induction l as [|x l IH]; intro H; cbn [pairwise]; [reflexivity|]. f_equal.
+    - apply forallb_ext_in. intros b Hb. apply H; [left; reflexivity|right; exact Hb].
+    - apply IH. intros a b Ha Hb. apply H; right; assumption.
+  Qed.
+
+  Lemma uniq_node_eq l f s : wfu l -> uniq_ok vs = true -> all_ctx (single_ctx vs) l f = true ->
+    In s (flat_map st_sids l) -> uq_impl f s = unique_node vs l f s.
+  Proof.
+    intros Hw Hu Hs Hin. unfold uq_impl, unique_node. destruct (kind vs s); try reflexivity.
+    apply pairwise_ext_in. intros a b Ha Hb. f_equal.
+    assert (Hch : exists ch, first_some (st_find s) l = Some ch).
+    { apply in_flat_map in Hin. destruct Hin as [t [Ht Hst]]. clear -Ht Hst. induction l as [|y r IHr]; [destruct Ht|].
+      cbn [first_some]. destruct (st_find s y) eqn:E; [eexists; reflexivity|].
+      destruct Ht as [->|Ht]; [exfalso; apply (st_find_some s t Hst E)|apply IHr, Ht]. }
+    destruct Hch as [ch Ech]. destruct (first_some_in _ _ _ Ech) as [x [Hx Ex]].
+    destruct (st_find_plain s x ch (Hw x Hx) Ex) as [Hpl _].
+    assert (Hc : st_children l s = ch) by (unfold st_children; rewrite Ech; reflexivity). rewrite Hc.
+    apply filter_In in Ha. destruct Ha as [Ha Ea]. apply filter_In in Hb. destruct Hb as [Hb Eb].
+    apply N.eqb_eq in Ea. apply N.eqb_eq in Eb.
+    apply all_ctx_iff in Hs. destruct Hs as [_ Hs].
+    pose proof (Hs a Ha) as Sa. pose proof (Hs b Hb) as Sb. rewrite Ea, Hc in Sa. rewrite Eb, Hc in Sb.
+    apply existsb_ext_in. intros u Hu'. unfold uq_equal, uq_conflict. destruct u as [|p0 u0] eqn:Eu; [reflexivity|]. rewrite <- Eu in *.
+    apply forallb_ext_in. intros p Hp. rewrite !uq_val_uqv.
+    rewrite (uvals_impl p ch (d_ch a) Sa (uniques_of_ok s u p Hu Hu' Hp) (fun d Hd => Hpl u p d Hu' Hp Hd)).
+    rewrite (uvals_impl p ch (d_ch b) Sb (uniques_of_ok s u p Hu Hu' Hp) (fun d Hd => Hpl u p d Hu' Hp Hd)).
+    symmetry. apply common_olist.
+  Qed.
+
+  Lemma uniq_all : uniq_ok vs = true -> forall f l, wfu l -> all_ctx (single_ctx vs) l f = true ->
+    all_ctx (Pe ENoUniq) l f = all_ctx (unique_ctx vs) l f.
+  Proof.
+    intro Hu. induction f as [f IH] using forest_ind'. intros l Hw Hs. unfold all_ctx. f_equal.
+    - rewrite Pe_uniq. unfold unique_ctx. apply forallb_ext_in. intros s Hin. apply uniq_node_eq; assumption.
+    - apply forallb_ext_in. intros n Hn. rewrite !all_ctx_node_unfold. apply (IH n Hn).
+      + apply st_children_wfu, Hw.
+      + apply all_ctx_iff in Hs. apply Hs, Hn.
+  Qed.
+
+  (* ----------------------------------------------------------------------------------------- *)
+  (* parsing with validation of a fresh tree                                                      *)
+  (* ----------------------------------------------------------------------------------------- *)
+  Definition ClassOK (f : forest) (e : verr) : Prop :=
+    match e with
+    | EFuel => True
+    | EType => rfc_types ty vs f = true
+    | EKey => rfc_keys vs f = true
+    | EDup => rfc_single vs f = true /\ rfc_keyuniq vs f = true /\ rfc_llval vs f = true
+    | EDupCase => rfc_case vs f = true
+    | ENoMand => rfc_mand vs f = true
+    | ENoMandChoice => rfc_mand_choice vs f = true
+    | ENoMin => rfc_min vs f = true
+    | ENoMax => rfc_max vs f = true
+    | ENoUniq => rfc_unique vs f = true
+    end.
+
+  Lemma lookup_in sch s i : lookup sch s = Some i -> exists k, In (k, i) sch.
+  Proof.
+    induction sch as [|[k j] r IH]; cbn [lookup]; [discriminate|]. destruct (k =? s).
+    - intro H. inversion H; subst. exists k. left. reflexivity.
+    - intro H. destruct (IH H) as [k' Hk]. exists k'. right. exact Hk.
+  Qed.
+
+  Lemma keys_ok_kinds : keys_ok vs = true -> key_kinds_ok.
+  Proof.
+    unfold keys_ok, key_kinds_ok. rewrite forallb_forall. intros H s k Hk. unfold info, sget in Hk.
+    destruct (lookup (vs_info vs) s) as [i|] eqn:E; [|destruct Hk].
+    destruct (lookup_in _ _ _ E) as [k' Hin]. specialize (H _ Hin). cbn [snd] in H. rewrite forallb_forall in H.
+    specialize (H k Hk). rewrite kind_multi. destruct (kind vs k); try discriminate; reflexivity.
+  Qed.
+
+  Lemma vspec_err e0 (OK : verr -> Prop) : ~ OK e0 -> vspec (VErr e0) OK.
+  Proof.
+    intro H. split.
+    - split; [discriminate|]. intro Ha. exfalso. apply H, Ha.
+    - intros e He. inversion He; subst. exact H.
+  Qed.
+
+  Hypothesis Hwf : vschema_ok vs = true.
+  Hypothesis Hplain : uniq_plain vs = true.
+
+  Lemma wf_parts : wf_l (vs_tree vs) /\ key_kinds_ok /\ uniq_ok vs = true /\ wfu (vs_tree vs).
+  Proof.
+    pose proof Hwf as W. unfold vschema_ok in W.
+    apply andb_true_iff in W. destruct W as [W W4]. apply andb_true_iff in W. destruct W as [W W3].
+    apply andb_true_iff in W. destruct W as [W1 W2]. rewrite forallb_forall in W1, W2. repeat split.
+    - apply W1, H.
+    - apply W2, H.
+    - apply keys_ok_kinds. exact W3.
+    - exact W4.
+    - pose proof Hplain as P. unfold uniq_plain in P. rewrite forallb_forall in P. exact P.
+  Qed.
+
+  Lemma final_classes f :
+    all_ctx case_ctx (vs_tree vs) f = true -> all_ctx (single_ctx vs) (vs_tree vs) f = true ->
+    (forall e, match e with ENoMand | ENoMandChoice | ENoMin | ENoMax | ENoUniq => False | _ => True end -> ClassOK f e) ->
+    vspec (final_top vs f) (ClassOK f).
+  Proof.
+    intros Hc Hs Hearly. destruct wf_parts as [Hw [_ [Hu Hwu]]].
+    eapply vspec_ext; [apply (final_top_spec f Hw Hc)|].
+    intro e. cbn beta.
+    destruct e; try (split; [intros _; apply Hearly; exact I|intros _; apply all_ctx_true; intros l' f'; apply Pe_other; exact I]);
+      cbn [ClassOK].
+    - reflexivity.
+    - reflexivity.
+    - reflexivity.
+    - unfold rfc_max. rewrite (all_ctx_ext (Pe ENoMax) (max_ctx vs) Pe_max). reflexivity.
+    - unfold rfc_unique. rewrite (uniq_all Hu f _ Hwu Hs). reflexivity.
+  Qed.
+
+  Theorem parse_validate_spec f : nodflt f = true -> vspec (impl_parse_validate vs ty f) (ClassOK f).
+  Proof.
+    intro Hd. destruct wf_parts as [Hw [Hk [Hu Hwu]]]. unfold impl_parse_validate.
+    eapply vspec_ext.
+    - apply vspec_vand; [apply parse_spec|]. intro Hp.
+      assert (Hty : rfc_types ty vs f = true) by (apply (Hp EType); reflexivity).
+      assert (Hkeys : rfc_keys vs f = true) by (apply (Hp EKey); reflexivity).
+      instantiate (1 := ClassOK f). unfold impl_validate.
+      destruct (vnew_fresh (S (vfsize (map mark_new f))) (vs_tree vs) f Hd (Nat.lt_succ_diag_r _)) as [[E Hn]|[e0 [E Hn]]]; rewrite E.
+      + rewrite map_erase_mark_clr.
+        pose proof (proj1 (Hn EDupCase) eq_refl) as Hcase. pose proof (proj2 (Hn EDup) eq_refl) as Hdup.
+        apply (dup_rules Hk f _ Hkeys) in Hdup. destruct Hdup as [S1 [S2 S3]].
+        apply (final_classes f Hcase S1). intros e He. destruct e; try contradiction; cbn [ClassOK]; auto.
+      + apply vspec_err. intro Hc. apply Hn. split; intros ->; cbn [ClassOK] in Hc.
+        * exact Hc.
+        * apply (dup_rules Hk f _ Hkeys). exact Hc.
+    - intro e. cbn beta. split; [intros [_ H]; exact H|]. intro H. split; [|exact H].
+      split; intros ->; exact H.
+  Qed.
+End Proofs.
+
+(* ------------------------------------------------------------------------------------------- *)
+(* main theorems                                                                                 *)
+(* ------------------------------------------------------------------------------------------- *)
+Lemma prune_id vs f : no_empty_np vs f = true -> prune vs f = f.
+Proof.
+  induction f as [f IH] using forest_ind'. unfold no_empty_np. rewrite forallb_forall. intro H.
+  unfold prune. induction f as [|x r IHr]; cbn [flat_map]; [reflexivity|].
+  rewrite IHr; [|intros n Hn; apply IH; right; exact Hn|intros n Hn; apply H; right; exact Hn].
+  specialize (H x (or_introl eq_refl)). specialize (IH x (or_introl eq_refl)).
+  destruct x as [s v d m ch]. cbn [no_empty_np_node d_ch] in *. apply andb_true_iff in H. destruct H as [H1 H2].
+  cbn [prune_node]. fold (prune vs ch). rewrite (IH H2).
+  destruct (kind vs s) as [[|]| | | |]; try reflexivity. destruct ch; [discriminate|reflexivity].
+Qed.
+
+Lemma class_ok_iff ty vs f e : class_ok ty vs f e = true <-> ClassOK ty vs f e.
+Proof.
+  destruct e; cbn [class_ok ClassOK]; try reflexivity.
+  - split; auto.
+  - rewrite !andb_true_iff. tauto.
+Qed.
+
+Lemma rules_hold_classes ty vs f : rules_hold ty vs f = true <-> forall e, class_ok ty vs f e = true.
+Proof.
+  unfold rules_hold. rewrite !andb_true_iff. split.
+  - intros [[[[[[[[[[H1 H2] H3] H4] H5] H6] H7] H8] H9] H10] H11] e. destruct e; cbn [class_ok]; try assumption; try reflexivity.
+    rewrite H3, H4, H5. reflexivity.
+  - intro H. pose proof (H EDup) as Hd. cbn [class_ok] in Hd. rewrite !andb_true_iff in Hd.
+    repeat split; try apply Hd;
+      [apply (H EType)|apply (H EKey)|apply (H EDupCase)|apply (H ENoMand)|apply (H ENoMandChoice)|apply (H ENoMin)|apply (H ENoMax)|apply (H ENoUniq)].
+Qed.
+
+Theorem validate_iff_rfc ty vs f :
+  vschema_ok vs = true -> uniq_plain vs = true -> fresh vs f = true ->
+  (impl_parse_validate vs ty f = VOk <-> rfc_valid ty vs f = true).
+Proof.
+  intros Hw Hp Hf. unfold fresh in Hf. apply andb_true_iff in Hf. destruct Hf as [Hd He].
+  unfold rfc_valid. rewrite (prune_id vs f He), rules_hold_classes.
+  destruct (parse_validate_spec ty vs Hw Hp f Hd) as [H _]. rewrite H.
+  split; intros Ha e; apply class_ok_iff, Ha.
+Qed.
+
+Theorem error_sound ty vs f e :
+  vschema_ok vs = true -> uniq_plain vs = true -> fresh vs f = true ->
+  impl_parse_validate vs ty f = VErr e -> class_ok ty vs f e = false.
+Proof.
+  intros Hw Hp Hf He. unfold fresh in Hf. apply andb_true_iff in Hf. destruct Hf as [Hd _].
+  destruct (parse_validate_spec ty vs Hw Hp f Hd) as [_ H]. specialize (H e He).
+  destruct (class_ok ty vs f e) eqn:E; [|reflexivity]. exfalso. apply H, class_ok_iff, E.
+Qed.
+
+Theorem error_class ty vs f e :
+  vschema_ok vs = true -> uniq_plain vs = true -> fresh vs f = true ->
+  class_ok ty vs f e = false -> (forall e', e' <> e -> class_ok ty vs f e' = true) ->
+  impl_parse_validate vs ty f = VErr e.
+Proof.
+  intros Hw Hp Hf Hbad Hothers.
+  destruct (impl_parse_validate vs ty f) as [|e2] eqn:E.
+  - exfalso. pose proof Hf as Hf'. unfold fresh in Hf'. apply andb_true_iff in Hf'. destruct Hf' as [Hd _].
+    destruct (parse_validate_spec ty vs Hw Hp f Hd) as [H _]. rewrite E in H.
+    pose proof (proj1 H eq_refl e) as Hc. apply class_ok_iff in Hc. congruence.
+  - pose proof (error_sound ty vs f e2 Hw Hp Hf E) as H2.
+    destruct (verr_dec e2 e) as [->|Hne]; [reflexivity|]. rewrite (Hothers e2 Hne) in H2. discriminate.
+Qed.
+
+(* ------------------------------------------------------------------------------------------- *)
+(* the verdict does not depend on the order of siblings                                          *)
+(* ------------------------------------------------------------------------------------------- *)
+(* g is f with the siblings permuted at any number of levels *)
+Inductive permt : forest -> forest -> Prop :=
+| permt_perm f g : Permutation f g -> permt f g
+| permt_child s v d m ch ch' r : permt ch ch' -> permt (DN s v d m ch :: r) (DN s v d m ch' :: r)
+| permt_skip x f g : permt f g -> permt (x :: f) (x :: g)
+| permt_trans f g h : permt f g -> permt g h -> permt f h.
+
+Lemma permt_refl f : permt f f.
+Proof. apply permt_perm. reflexivity. Qed.
+
+Definition sv (d : dnode) : sid * bytes := (d_sid d, d_val d).
+
+Lemma permt_sv f g : permt f g -> Permutation (map sv f) (map sv g).
+Proof.
+  induction 1 as [f g H|s v d m ch ch' r _ _|x f g _ IH|f g h _ IH1 _ IH2].
+  - apply Permutation_map, H.
+  - reflexivity.
+  - cbn [map]. constructor. exact IH.
+  - etransitivity; eassumption.
+Qed.
+
+Lemma permt_sids f g : permt f g -> Permutation (map d_sid f) (map d_sid g).
+Proof.
+  intro H. apply permt_sv in H. apply (Permutation_map fst) in H. rewrite !map_map in H. exact H.
+Qed.
+
+Lemma existsb_perm {A} (p : A -> bool) l l' : Permutation l l' -> existsb p l = existsb p l'.
+Proof.
+  induction 1 as [|x l l' _ IH|x y l|l l' l'' _ IH1 _ IH2]; cbn [existsb]; [reflexivity|rewrite IH; reflexivity| |congruence].
+  destruct (p x), (p y); reflexivity.
+Qed.
+
+Lemma forallb_perm {A} (p : A -> bool) l l' : Permutation l l' -> forallb p l = forallb p l'.
+Proof.
+  induction 1 as [|x l l' _ IH|x y l|l l' l'' _ IH1 _ IH2]; cbn [forallb]; [reflexivity|rewrite IH; reflexivity| |congruence].
+  destruct (p x), (p y); reflexivity.
+Qed.
+
+Lemma filter_perm {A} (p : A -> bool) l l' : Permutation l l' -> Permutation (filter p l) (filter p l').
+Proof.
+  induction 1 as [|x l l' _ IH|x y l|l l' l'' _ IH1 _ IH2]; cbn [filter]; [reflexivity| | |etransitivity; eassumption].
+  - destruct (p x); [constructor|]; exact IH.
+  - destruct (p x), (p y); try reflexivity. apply perm_swap.
+Qed.
+
+Lemma has_sid_map f s : has_sid f s = existsb (fun x => x =? s) (map d_sid f).
+Proof. unfold has_sid. induction f as [|x f IH]; cbn [existsb map]; [reflexivity|]. rewrite IH. reflexivity. Qed.
+
+Lemma count_map f s : count f s = N.of_nat (length (filter (fun x => x =? s) (map d_sid f))).
+Proof.
+  unfold count, insts. f_equal. induction f as [|x f IH]; cbn [filter map length]; [reflexivity|].
+  destruct (d_sid x =? s); cbn [length]; rewrite IH; reflexivity.
+Qed.
+
+Definition sids_eq (f g : forest) : Prop := Permutation (map d_sid f) (map d_sid g).
+
+Lemma has_sid_eq f g s : sids_eq f g -> has_sid f s = has_sid g s.
+Proof. intro H. rewrite !has_sid_map. apply existsb_perm, H. Qed.
+
+Lemma count_eq f g s : sids_eq f g -> count f s = count g s.
+Proof. intro H. rewrite !count_map. f_equal. apply Permutation_length, filter_perm, H. Qed.
+
+Lemma sub_has_data_eq f g t : sids_eq f g -> sub_has_data f t = sub_has_data g t.
+Proof. intro H. unfold sub_has_data. apply existsb_ext_in. intros s _. apply has_sid_eq, H. Qed.
+
+Lemma permt_insts f g s : permt f g -> permt (insts f s) (insts g s).
+Proof.
+  unfold insts. induction 1 as [f g H|s' v d m ch ch' r H _|x f g _ IH|f g h _ IH1 _ IH2].
+  - apply permt_perm, filter_perm, H.
+  - cbn [filter d_sid]. destruct (s' =? s); [apply permt_child, H|apply permt_refl].
+  - cbn [filter]. destruct (d_sid x =? s); [apply permt_skip, IH|exact IH].
+  - eapply permt_trans; eassumption.
+Qed.
+
+Lemma permt_nil f g : permt f g -> (f = [] <-> g = []).
+Proof.
+  intro H. apply permt_sv in H. apply Permutation_length in H. rewrite !map_length in H.
+  destruct f, g; cbn in H; split; intro E; try reflexivity; try discriminate.
+Qed.
+
+(* a predicate on nodes that does not see the order of the children *)
+Definition resp1 (p : dnode -> bool) : Prop :=
+  forall s v d m ch ch', permt ch ch' -> p (DN s v d m ch) = p (DN s v d m ch').
+
+Lemma forallb_permt p f g : resp1 p -> permt f g -> forallb p f = forallb p g.
+Proof.
+  intros Hp. induction 1 as [f g H|s v d m ch ch' r H _|x f g _ IH|f g h _ IH1 _ IH2]; cbn [forallb].
+  - apply forallb_perm, H.
+  - rewrite (Hp s v d m ch ch' H). reflexivity.
+  - rewrite IH. reflexivity.
+  - congruence.
+Qed.
+
+Definition resp2 (r : dnode -> dnode -> bool) : Prop :=
+  forall s v d m ch ch' b, permt ch ch' -> r (DN s v d m ch) b = r (DN s v d m ch') b.
+
+Lemma pairwise_perm {A} (r : A -> A -> bool) l l' :
+  (forall a b, r a b = r b a) -> Permutation l l' -> pairwise r l = pairwise r l'.
+Proof.
+  intro Hs. induction 1 as [|x l l' Hp IH|x y l|l l' l'' _ IH1 _ IH2]; cbn [pairwise]; [reflexivity| | |congruence].
+  - rewrite IH, (forallb_perm _ _ _ Hp). reflexivity.
+  - cbn [forallb]. rewrite (Hs y x).
+    destruct (r x y), (forallb (r x) l), (forallb (r y) l), (pairwise r l); reflexivity.
+Qed.
+
+Lemma pairwise_permt r f g :
+  (forall a b, r a b = r b a) -> resp2 r -> permt f g -> pairwise r f = pairwise r g.
+Proof.
+  intros Hs Hr. induction 1 as [f g H|s v d m ch ch' rr H _|x f g Hfg IH|f g h _ IH1 _ IH2]; cbn [pairwise].
+  - apply pairwise_perm; assumption.
+  - f_equal. apply forallb_ext_in. intros b _. apply Hr, H.
+  - rewrite IH. f_equal. apply forallb_permt; [|exact Hfg].
+    intros s v d m ch ch' Hc. rewrite (Hs x), (Hs x). apply Hr, Hc.
+  - congruence.
+Qed.
+
+Lemma all_ctx_permt P :
+  (forall l f g, permt f g -> P l f = P l g) -> forall f g, permt f g -> forall l, all_ctx P l f = all_ctx P l g.
+Proof.
+  intro HP.
+  assert (G : forall f g, permt f g -> forall l, forallb (all_ctx_node P l) f = forallb (all_ctx_node P l) g).
+  { induction 1 as [f g H|s v d m ch ch' r H IH|x f g _ IH|f g h _ IH1 _ IH2]; intro l; cbn [forallb].
+    - apply forallb_perm, H.
+    - f_equal. cbn [all_ctx_node]. rewrite (HP _ ch ch' H), IH. reflexivity.
+    - rewrite IH. reflexivity.
+    - rewrite IH1. apply IH2. }
+  intros f g H l. unfold all_ctx. rewrite (HP l f g H), (G f g H l). reflexivity.
+Qed.
+
+Section Perm.
+  Variable ty : sid -> bytes -> bool.
+  Variable vs : vschema.
+
+  Lemma types_permt f g : permt f g -> rfc_types ty vs f = rfc_types ty vs g.
+  Proof.
+    unfold rfc_types. induction 1 as [f g H|s v d m ch ch' r H IH|x f g _ IH|f g h _ IH1 _ IH2]; cbn [forallb].
+    - apply forallb_perm, H.
+    - cbn [types_node]. rewrite IH. reflexivity.
+    - rewrite IH. reflexivity.
+    - congruence.
+  Qed.
+
+  Lemma keys_permt f g : permt f g -> rfc_keys vs f = rfc_keys vs g.
+  Proof.
+    unfold rfc_keys. induction 1 as [f g H|s v d m ch ch' r H IH|x f g _ IH|f g h _ IH1 _ IH2]; cbn [forallb].
+    - apply forallb_perm, H.
+    - cbn [keys_node]. rewrite IH. f_equal. f_equal. apply forallb_ext_in. intros k _. apply has_sid_eq, permt_sids, H.
+    - rewrite IH. reflexivity.
+    - congruence.
+  Qed.
+
+  Lemma same_single_sym a b : same_single vs a b = same_single vs b a.
+  Proof.
+    unfold same_single. destruct (d_sid a =? d_sid b) eqn:E.
+    - apply N.eqb_eq in E. rewrite E, N.eqb_refl. reflexivity.
+    - rewrite N.eqb_sym, E. reflexivity.
+  Qed.
+
+  Lemma single_permt l f g : permt f g -> single_ctx vs l f = single_ctx vs l g.
+  Proof.
+    intro H. unfold single_ctx. apply pairwise_permt; [| |exact H].
+    - intros a b. rewrite same_single_sym. reflexivity.
+    - intros s v d m ch ch' b _. reflexivity.
+  Qed.
+
+  Lemma common_sym a b : common a b = common b a.
+  Proof.
+    apply Bool.eq_iff_eq_true. unfold common. rewrite !existsb_exists. split; intros [x [Hx H]];
+      apply existsb_exists in H; destruct H as [y [Hy E]]; apply beq_bytes_eq in E; subst y;
+      exists x; (split; [assumption|]); apply existsb_exists; exists x; (split; [assumption|apply beq_bytes_refl]).
+  Qed.
+
+  Lemma common_perm a a' b : Permutation a a' -> common a b = common a' b.
+  Proof. intro H. unfold common. apply existsb_perm, H. Qed.
+
+  Lemma vals_permt ch ch' k : permt ch ch' -> Permutation (map d_val (insts ch k)) (map d_val (insts ch' k)).
+  Proof.
+    intro H. apply (permt_insts _ _ k) in H. apply permt_sv in H. apply (Permutation_map snd) in H.
+    rewrite !map_map in H. exact H.
+  Qed.
+
+  Lemma same_keys_sym a b : same_keys vs a b = same_keys vs b a.
+  Proof.
+    unfold same_keys. destruct (d_sid a =? d_sid b) eqn:E.
+    - apply N.eqb_eq in E. rewrite E, N.eqb_refl. f_equal. apply forallb_ext_in. intros k _. apply common_sym.
+    - rewrite N.eqb_sym, E. reflexivity.
+  Qed.
+
+  Lemma keyuniq_permt l f g : permt f g -> keyuniq_ctx vs l f = keyuniq_ctx vs l g.
+  Proof.
+    intro H. unfold keyuniq_ctx. apply pairwise_permt; [| |exact H].
+    - intros a b. rewrite same_keys_sym. reflexivity.
+    - intros s v d m ch ch' b Hc. unfold same_keys. cbn [d_sid]. f_equal. f_equal.
+      apply forallb_ext_in. intros k _. unfold kvals. cbn [d_ch]. apply common_perm, vals_permt, Hc.
+  Qed.
+
+  Lemma same_llval_sym a b : same_llval vs a b = same_llval vs b a.
+  Proof.
+    unfold same_llval. destruct (d_sid a =? d_sid b) eqn:E.
+    - apply N.eqb_eq in E. rewrite E, N.eqb_refl, beq_bytes_sym. reflexivity.
+    - rewrite N.eqb_sym, E. reflexivity.
+  Qed.
+
+  Lemma llval_permt l f g : permt f g -> llval_ctx vs l f = llval_ctx vs l g.
+  Proof.
+    intro H. unfold llval_ctx. apply pairwise_permt; [| |exact H].
+    - intros a b. rewrite same_llval_sym. reflexivity.
+    - intros s v d m ch ch' b _. reflexivity.
+  Qed.
+
+  Lemma case_t_eq f g t : sids_eq f g -> case_t f t = case_t g t.
+  Proof.
+    intro H. induction t as [s ch IH|cid m cs IH|c d ch IH] using stree_ind'; cbn [case_t]; rewrite Forall_forall in IH.
+    - reflexivity.
+    - rewrite (filter_ext _ _ (fun c => sub_has_data_eq f g c H)). f_equal. apply forallb_ext_in. exact IH.
+    - apply forallb_ext_in. exact IH.
+  Qed.
+
+  Lemma case_permt l f g : permt f g -> case_ctx l f = case_ctx l g.
+  Proof. intro H. unfold case_ctx. apply forallb_ext_in. intros t _. apply case_t_eq, permt_sids, H. Qed.
+
+  Lemma req_eq Pn Pc f g t : sids_eq f g -> (forall s, Pn f s = Pn g s) -> (forall m cs, Pc f m cs = Pc g m cs) ->
+    forall eff, req vs Pn Pc f eff t = req vs Pn Pc g eff t.
+  Proof.
+    intros H Hn Hc. induction t as [s ch IH|cid m cs IH|c d ch IH] using stree_ind'; intro eff; cbn [req]; rewrite Forall_forall in IH.
+    - rewrite Hn, (has_sid_eq f g s H). reflexivity.
+    - rewrite Hc. f_equal. apply forallb_ext_in. intros x Hx. apply IH, Hx.
+    - rewrite (sub_has_data_eq f g _ H). apply forallb_ext_in. intros x Hx. apply IH, Hx.
+  Qed.
+
+  Lemma mand_permt l f g : permt f g -> req_ctx vs (mand_node vs) (fun _ _ _ => true) l f = req_ctx vs (mand_node vs) (fun _ _ _ => true) l g.
+  Proof.
+    intro H. apply permt_sids in H. unfold req_ctx. apply forallb_ext_in. intros t _. apply req_eq; [exact H| |reflexivity].
+    intro s. unfold mand_node. rewrite (has_sid_eq f g s H). reflexivity.
+  Qed.
+
+  Lemma mandc_permt l f g : permt f g -> req_ctx vs (fun _ _ => true) mand_choice l f = req_ctx vs (fun _ _ => true) mand_choice l g.
+  Proof.
+    intro H. apply permt_sids in H. unfold req_ctx. apply forallb_ext_in. intros t _. apply req_eq; [exact H|reflexivity|].
+    intros m cs. unfold mand_choice. f_equal. apply existsb_ext_in. intros c _. apply sub_has_data_eq, H.
+  Qed.
+
+  Lemma min_permt l f g : permt f g -> req_ctx vs (min_node vs) (fun _ _ _ => true) l f = req_ctx vs (min_node vs) (fun _ _ _ => true) l g.
+  Proof.
+    intro H. apply permt_sids in H. unfold req_ctx. apply forallb_ext_in. intros t _. apply req_eq; [exact H| |reflexivity].
+    intro s. unfold min_node. rewrite (count_eq f g s H). reflexivity.
+  Qed.
+
+  Lemma max_permt l f g : permt f g -> max_ctx vs l f = max_ctx vs l g.
+  Proof.
+    intro H. apply permt_sids in H. unfold max_ctx. apply forallb_ext_in. intros s _. unfold max_node.
+    rewrite (count_eq f g s H). reflexivity.
+  Qed.
+
+  (* unique *)
+  Lemma eff_in_eq f g s t : sids_eq f g -> forall eff chd, eff_in f eff chd s t = eff_in g eff chd s t.
+  Proof.
+    intro H. induction t as [s' ch IH|cid m cs IH|c d ch IH] using stree_ind'; intros eff chd; cbn [eff_in]; rewrite Forall_forall in IH.
+    - reflexivity.
+    - rewrite (existsb_ext_in _ (sub_has_data g) cs (fun c _ => sub_has_data_eq f g c H)).
+      generalize (existsb (sub_has_data g) cs). intro b. clear -IH.
+      induction cs as [|x r IHr]; cbn [first_some]; [reflexivity|]. rewrite (IH x (or_introl eq_refl)).
+      destruct (eff_in g eff b s x); [reflexivity|]. apply IHr. intros y Hy. apply IH. right. exact Hy.
+    - rewrite (sub_has_data_eq f g _ H). generalize (eff && (sub_has_data g (TCase c d ch) || d && negb chd)). intro b. clear -IH.
+      induction ch as [|x r IHr]; cbn [first_some]; [reflexivity|]. rewrite (IH x (or_introl eq_refl)).
+      destruct (eff_in g b false s x); [reflexivity|]. apply IHr. intros y Hy. apply IH. right. exact Hy.
+  Qed.
+
+  Lemma in_effect_eq l f g s : sids_eq f g -> in_effect l f s = in_effect l g s.
+  Proof.
+    intro H. unfold in_effect. replace (first_some (eff_in f true false s) l) with (first_some (eff_in g true false s) l); [reflexivity|].
+    induction l as [|x r IH]; cbn [first_some]; [reflexivity|]. rewrite (eff_in_eq f g s x H). rewrite IH. reflexivity.
+  Qed.
+
+  Lemma flat_map_permt (F : forest -> list bytes) A B :
+    (forall ch ch', permt ch ch' -> Permutation (F ch) (F ch')) -> permt A B ->
+    Permutation (flat_map (fun d => F (d_ch d)) A) (flat_map (fun d => F (d_ch d)) B).
+  Proof.
+    intro HF. induction 1 as [f g H|s v d m ch ch' r H _|x f g _ IH|f g h _ IH1 _ IH2]; cbn [flat_map].
+    - apply Permutation_flat_map, H.
+    - apply Permutation_app_tail. cbn [d_ch]. apply HF, H.
+    - apply Permutation_app_head, IH.
+    - etransitivity; eassumption.
+  Qed.
+
+  Lemma uvals_permt : forall p l f g, permt f g -> Permutation (uvals vs l f p) (uvals vs l g p).
+  Proof.
+    induction p as [|s p IH]; intros l f g H; [reflexivity|].
+    pose proof (permt_insts f g s H) as Hi. pose proof (permt_nil _ _ Hi) as Hn. pose proof (permt_sids f g H) as Hs.
+    destruct p as [|s2 p2].
+    - rewrite !uvals_one. destruct (insts f s) as [|x r] eqn:Ef.
+      + rewrite (proj1 Hn eq_refl). rewrite (in_effect_eq l f g s Hs). reflexivity.
+      + destruct (insts g s) as [|y r'] eqn:Eg; [discriminate (proj2 Hn eq_refl)|].
+        apply permt_sv in Hi. apply (Permutation_map snd) in Hi. rewrite !map_map in Hi. exact Hi.
+    - rewrite !uvals_cons2. destruct (insts f s) as [|x r] eqn:Ef.
+      + rewrite (proj1 Hn eq_refl). rewrite (in_effect_eq l f g s Hs). reflexivity.
+      + destruct (insts g s) as [|y r'] eqn:Eg; [discriminate (proj2 Hn eq_refl)|].
+        apply (flat_map_permt (fun ch => uvals vs (st_children l s) ch (s2 :: p2))); [|exact Hi].
+        intros ch ch' Hc. apply IH, Hc.
+  Qed.
+
+  Lemma uq_conflict_sym ls u a b : uq_conflict vs ls u a b = uq_conflict vs ls u b a.
+  Proof. unfold uq_conflict. destruct u; [reflexivity|]. apply forallb_ext_in. intros p _. apply common_sym. Qed.
+
+  Lemma unique_permt l f g : permt f g -> unique_ctx vs l f = unique_ctx vs l g.
+  Proof.
+    intro H. unfold unique_ctx. apply forallb_ext_in. intros s _. unfold unique_node. destruct (kind vs s); try reflexivity.
+    apply pairwise_permt; [| |apply permt_insts, H].
+    - intros a b. f_equal. apply existsb_ext_in. intros u _. apply uq_conflict_sym.
+    - intros s' v d m ch ch' b Hc. f_equal. apply existsb_ext_in. intros u _. unfold uq_conflict. destruct u; [reflexivity|].
+      apply forallb_ext_in. intros p _. cbn [d_ch]. apply common_perm, uvals_permt, Hc.
+  Qed.
+
+  Theorem rules_hold_permt f g : permt f g -> rules_hold ty vs f = rules_hold ty vs g.
+  Proof.
+    intro H. unfold rules_hold, rfc_single, rfc_keyuniq, rfc_llval, rfc_case, rfc_mand, rfc_mand_choice, rfc_min, rfc_max, rfc_unique.
+    rewrite (types_permt f g H), (keys_permt f g H).
+    rewrite (all_ctx_permt _ single_permt f g H), (all_ctx_permt _ keyuniq_permt f g H), (all_ctx_permt _ llval_permt f g H),
+      (all_ctx_permt _ case_permt f g H), (all_ctx_permt _ mand_permt f g H), (all_ctx_permt _ mandc_permt f g H),
+      (all_ctx_permt _ min_permt f g H), (all_ctx_permt _ max_permt f g H), (all_ctx_permt _ unique_permt f g H).
+    reflexivity.
+  Qed.
+
+  Lemma permt_app_head l f g : permt f g -> permt (l ++ f) (l ++ g).
+  Proof. intro H. induction l as [|x l IH]; [exact H|]. cbn [app]. apply permt_skip, IH. Qed.
+
+  Lemma prune_node_unfold s v d m ch :
+    prune_node vs (DN s v d m ch) =
+    match kind vs s, prune vs ch with
+    | KCont false, [] => None
+    | _, _ => Some (DN s v d m (prune vs ch))
+    end.
+  Proof. reflexivity. Qed.
+
+  Lemma prune_cons x r :
+    prune vs (x :: r) = (match prune_node vs x with Some c' => [c'] | None => [] end) ++ prune vs r.
+  Proof. reflexivity. Qed.
+
+  Lemma prune_permt f g : permt f g -> permt (prune vs f) (prune vs g).
+  Proof.
+    induction 1 as [f g H|s v d m ch ch' r H IH|x f g _ IH|f g h _ IH1 _ IH2].
+    - apply permt_perm. unfold prune. apply Permutation_flat_map, H.
+    - rewrite !prune_cons, !prune_node_unfold.
+      pose proof (permt_nil _ _ IH) as Hn.
+      destruct (prune vs ch) as [|a ra] eqn:E1.
+      + rewrite (proj1 Hn eq_refl). apply permt_refl.
+      + destruct (prune vs ch') as [|b rb] eqn:E2; [discriminate (proj2 Hn eq_refl)|].
+        destruct (kind vs s) as [[|]| | | |]; cbn [app]; apply permt_child; exact IH.
+    - rewrite !prune_cons. apply permt_app_head, IH.
+    - eapply permt_trans; eassumption.
+  Qed.
+
+  Theorem rfc_valid_permt f g : permt f g -> rfc_valid ty vs f = rfc_valid ty vs g.
+  Proof. intro H. unfold rfc_valid. apply rules_hold_permt, prune_permt, H. Qed.
+End Perm.
+
+Lemma nodflt_permt f g : permt f g -> nodflt f = nodflt g.
+Proof.
+  unfold nodflt. induction 1 as [f g H|s v d m ch ch' r H IH|x f g _ IH|f g h _ IH1 _ IH2]; cbn [forallb].
+  - apply forallb_perm, H.
+  - cbn [nodflt_node]. rewrite IH. reflexivity.
+  - rewrite IH. reflexivity.
+  - congruence.
+Qed.
+
+Lemma no_empty_np_permt vs f g : permt f g -> no_empty_np vs f = no_empty_np vs g.
+Proof.
+  unfold no_empty_np. induction 1 as [f g H|s v d m ch ch' r H IH|x f g _ IH|f g h _ IH1 _ IH2]; cbn [forallb].
+  - apply forallb_perm, H.
+  - cbn [no_empty_np_node]. rewrite IH. f_equal. f_equal. pose proof (permt_nil _ _ H) as Hn.
+    destruct ch, ch'; try reflexivity; [discriminate (proj1 Hn eq_refl)|discriminate (proj2 Hn eq_refl)].
+  - rewrite IH. reflexivity.
+  - congruence.
+Qed.
+
+Lemma fresh_permt vs f g : permt f g -> fresh vs f = fresh vs g.
+Proof. intro H. unfold fresh. rewrite (nodflt_permt f g H), (no_empty_np_permt vs f g H). reflexivity. Qed.
+
+Theorem impl_verdict_permt ty vs f g :
+  vschema_ok vs = true -> uniq_plain vs = true -> fresh vs f = true -> permt f g ->
+  (impl_parse_validate vs ty f = VOk <-> impl_parse_validate vs ty g = VOk).
+Proof.
+  intros Hw Hp Hf H. assert (Hg : fresh vs g = true) by (rewrite <- (fresh_permt vs f g H); exact Hf).
+  rewrite (validate_iff_rfc ty vs f Hw Hp Hf), (validate_iff_rfc ty vs g Hw Hp Hg), (rfc_valid_permt ty vs f g H). reflexivity.
+Qed.
+
+(* ------------------------------------------------------------------------------------------- *)
+(* witnesses                                                                                     *)
+(* ------------------------------------------------------------------------------------------- *)
+Definition ty_any (_ : sid) (_ : bytes) : bool := true.
+
+Definition si (k : skind) (p : option sid) (keys : list sid) (dflts : list bytes) (mand : bool) (mn : N) (mx : option N) : sinfo :=
+  mk_sinfo k p keys false true dflts [] mand mn mx OBytes.
+
+(* list l { key k; leaf a; }  --  sids 0 l, 1 k, 2 a *)
+Definition w1_schema : vschema :=
+  mk_vschema [(0, si KList None [1] [] false 0 None); (1, si KLeaf (Some 0) [] [] false 0 None);
+              (2, si KLeaf (Some 0) [] [] false 0 None)]
+             [TNode 0 [TNode 1 []; TNode 2 []]] [].
+
+(* the tree after lyd_unlink_tree + lyd_insert_sibling of the leaf a of entry 1 into entry 2 (both entries validated
+   before: no node is flagged new): entry 2 holds two instances of a *)
+Definition w1_tree : vforest :=
+  [VN 0 [] false false [] [VN 1 [49] false false [] []];
+   VN 0 [] false false [] [VN 1 [50] false false [] []; VN 2 [65; 50] false false [] []; VN 2 [65; 49] false false [] []]].
+
+Lemma w1_accepts : impl_validate w1_schema w1_tree = VOk.
+Proof. vm_compute. reflexivity. Qed.
+Lemma w1_invalid : rfc_valid ty_any w1_schema (explicit w1_tree) = false.
+Proof. vm_compute. reflexivity. Qed.
+Lemma w1_wf : vschema_ok w1_schema = true /\ uniq_plain w1_schema = true.
+Proof. vm_compute. split; reflexivity. Qed.
+(* the same tree with every node flagged new is rejected: the flag is what the verdict hangs on *)
+Lemma w1_new_rejected : impl_validate w1_schema (map mark_new (explicit w1_tree)) = VErr EDup.
+Proof. vm_compute. reflexivity. Qed.
+
+(* list l { key k; unique "p/x"; container p { presence; leaf x { default "d"; } } }  --  sids 0 l, 1 k, 2 p, 3 x *)
+Definition w2_schema : vschema :=
+  mk_vschema [(0, si KList None [1] [] false 0 None); (1, si KLeaf (Some 0) [] [] false 0 None);
+              (2, si (KCont true) (Some 0) [] [] false 0 None); (3, si KLeaf (Some 2) [] [[100]] false 0 None)]
+             [TNode 0 [TNode 1 []; TNode 2 [TNode 3 []]]] [(0, [[[2; 3]]])].
+(* two entries without the presence container: x neither exists nor has a default in use *)
+Definition w2_tree : forest :=
+  [DN 0 [] false [] [DN 1 [49] false [] []]; DN 0 [] false [] [DN 1 [50] false [] []]].
+
+Lemma w2_facts :
+  vschema_ok w2_schema = true /\ fresh w2_schema w2_tree = true /\ rfc_valid ty_any w2_schema w2_tree = true /\
+  impl_parse_validate w2_schema ty_any w2_tree = VErr ENoUniq /\ uniq_plain w2_schema = false.
+Proof. vm_compute. repeat split; reflexivity. Qed.
+
+(* a schema with every modelled construct and a valid instance of it: the hypotheses of the theorems are satisfiable
+     container c (0) { leaf m (1) mandatory; choice ch mandatory { case a { leaf x (2); } case b { leaf y (3); } } }
+     list l (4) { key k (5); unique "u"; min-elements 1; max-elements 2; leaf u (6) default "d"; }
+     leaf-list ll (7) { max-elements 3; }                                                        *)
+Definition ex_schema : vschema :=
+  mk_vschema [(0, si (KCont false) None [] [] false 0 None); (1, si KLeaf (Some 0) [] [] true 0 None);
+              (2, si KLeaf (Some 0) [] [] false 0 None); (3, si KLeaf (Some 0) [] [] false 0 None);
+              (4, si KList None [5] [] false 1 (Some 2)); (5, si KLeaf (Some 4) [] [] false 0 None);
+              (6, si KLeaf (Some 4) [] [[100]] false 0 None); (7, si KLeafList None [] [] false 0 (Some 3))]
+             [TNode 0 [TNode 1 []; TChoice 0 true [TCase 0 false [TNode 2 []]; TCase 1 false [TNode 3 []]]];
+              TNode 4 [TNode 5 []; TNode 6 []]; TNode 7 []]
+             [(4, [[[6]]])].
+Definition ex_tree : forest :=
+  [DN 0 [] false [] [DN 1 [109] false [] []; DN 3 [121] false [] []];
+   DN 4 [] false [] [DN 5 [49] false [] []]; DN 4 [] false [] [DN 5 [50] false [] []; DN 6 [101] false [] []];
+   DN 7 [97] false [] []; DN 7 [98] false [] []].
+(* one mutation per class *)
+Definition ex_no_mand : forest :=
+  [DN 0 [] false [] [DN 3 [121] false [] []]; DN 4 [] false [] [DN 5 [49] false [] []]].
+Definition ex_no_choice : forest :=
+  [DN 0 [] false [] [DN 1 [109] false [] []]; DN 4 [] false [] [DN 5 [49] false [] []]].
+Definition ex_two_cases : forest :=
+  [DN 0 [] false [] [DN 1 [109] false [] []; DN 2 [120] false [] []; DN 3 [121] false [] []]; DN 4 [] false [] [DN 5 [49] false [] []]].
+Definition ex_too_few : forest := [DN 0 [] false [] [DN 1 [109] false [] []; DN 3 [121] false [] []]].
+Definition ex_too_many : forest :=
+  [DN 0 [] false [] [DN 1 [109] false [] []; DN 3 [121] false [] []];
+   DN 4 [] false [] [DN 5 [49] false [] []; DN 6 [97] false [] []]; DN 4 [] false [] [DN 5 [50] false [] []; DN 6 [98] false [] []];
+   DN 4 [] false [] [DN 5 [51] false [] []; DN 6 [99] false [] []]].
+Definition ex_not_unique : forest :=     (* through the default value d of u *)
+  [DN 0 [] false [] [DN 1 [109] false [] []; DN 3 [121] false [] []];
+   DN 4 [] false [] [DN 5 [49] false [] []]; DN 4 [] false [] [DN 5 [50] false [] []; DN 6 [100] false [] []]].
+Definition ex_dup_key : forest :=
+  [DN 0 [] false [] [DN 1 [109] false [] []; DN 3 [121] false [] []];
+   DN 4 [] false [] [DN 5 [49] false [] []]; DN 4 [] false [] [DN 5 [49] false [] []; DN 6 [101] false [] []]].
+
+Lemma ex_facts :
+  vschema_ok ex_schema = true /\ uniq_plain ex_schema = true /\ fresh ex_schema ex_tree = true /\
+  rfc_valid ty_any ex_schema ex_tree = true /\ impl_parse_validate ex_schema ty_any ex_tree = VOk /\
+  impl_parse_validate ex_schema ty_any ex_no_mand = VErr ENoMand /\
+  impl_parse_validate ex_schema ty_any ex_no_choice = VErr ENoMandChoice /\
+  impl_parse_validate ex_schema ty_any ex_two_cases = VErr EDupCase /\
+  impl_parse_validate ex_schema ty_any ex_too_few = VErr ENoMin /\
+  impl_parse_validate ex_schema ty_any ex_too_many = VErr ENoMax /\
+  impl_parse_validate ex_schema ty_any ex_not_unique = VErr ENoUniq /\
+  impl_parse_validate ex_schema ty_any ex_dup_key = VErr EDup.
+Proof. vm_compute. repeat split; reflexivity. Qed.
+
+(* the statement for trees with ARBITRARY flags (values of their types, list entries with their keys) *)
+Definition validate_iff_rfc_flags_statement : Prop :=
+  forall ty vs (t : vforest),
+    vschema_ok vs = true -> uniq_plain vs = true ->
+    rfc_types ty vs (explicit t) = true -> rfc_keys vs (explicit t) = true ->
+    (impl_validate vs t = VOk <-> rfc_valid ty vs (explicit t) = true).
+
+Lemma validate_iff_rfc_flags_refuted : ~ validate_iff_rfc_flags_statement.
+Proof.
+  intro H. specialize (H ty_any w1_schema w1_tree (proj1 w1_wf) (proj2 w1_wf)).
+  assert (H1 : rfc_types ty_any w1_schema (explicit w1_tree) = true) by (vm_compute; reflexivity).
+  assert (H2 : rfc_keys w1_schema (explicit w1_tree) = true) by (vm_compute; reflexivity).
+  specialize (H H1 H2). rewrite w1_accepts, w1_invalid in H. destruct H as [H _]. specialize (H eq_refl). discriminate.
+Qed.
+
+(* the statement for fresh trees WITHOUT the restriction on unique statements *)
+Definition validate_iff_rfc_fresh_statement : Prop :=
+  forall ty vs f, vschema_ok vs = true -> fresh vs f = true ->
+    (impl_parse_validate vs ty f = VOk <-> rfc_valid ty vs f = true).
+
+Lemma unique_default_refuted : ~ validate_iff_rfc_fresh_statement.
+Proof.
+  intro H. destruct w2_facts as [A [B [C [D _]]]]. specialize (H ty_any w2_schema w2_tree A B).
+  rewrite C, D in H. destruct H as [_ H]. specialize (H eq_refl). discriminate.
+Qed.
+
+Lemma apptag_table :
+  apptag ENoMandChoice = [109;105;115;115;105;110;103;45;99;104;111;105;99;101] /\
+  apptag ENoMin = [116;111;111;45;102;101;119;45;101;108;101;109;101;110;116;115] /\
+  apptag ENoMax = [116;111;111;45;109;97;110;121;45;101;108;101;109;101;110;116;115] /\
+  apptag ENoUniq = [100;97;116;97;45;110;111;116;45;117;110;105;113;117;101] /\
+  apptag ENoMand = [] /\ apptag EDup = [] /\ apptag EDupCase = [] /\ apptag EKey = [] /\ apptag EType = [].
+Proof. repeat split; reflexivity. Qed.
+
+Lemma error_class_report ty vs f e :
+  vschema_ok vs = true -> uniq_plain vs = true -> fresh vs f = true ->
+  class_ok ty vs f e = false -> (forall e', e' <> e -> class_ok ty vs f e' = true) ->
+  impl_parse_validate vs ty f = VErr e /\ report e = (7, 9, apptag e).
+Proof. intros. split; [apply error_class; assumption|reflexivity]. Qed.
+
+
+(* container top (0) { choice ch mandatory { case a { leaf x (1); choice inner default d1 { case d1 { leaf y (2) default 5 }
+   case d2 { leaf w (3) } } } case b { leaf z (4) } } leaf keep (5) }
+   The tree after: parse + validate <top><x/><keep/></top> (y is added as a default node), lyd_free_tree(x): y (flagged
+   default) keeps case a alive - lyd_validate_autodel_case_dflt looks at the innermost case d1 only, which is a default
+   case - and the mandatory choice counts as satisfied. *)
+Definition w3_schema : vschema :=
+  mk_vschema [(0, si (KCont false) None [] [] false 0 None); (1, si KLeaf (Some 0) [] [] false 0 None);
+              (2, si KLeaf (Some 0) [] [[53]] false 0 None); (3, si KLeaf (Some 0) [] [] false 0 None);
+              (4, si KLeaf (Some 0) [] [] false 0 None); (5, si KLeaf (Some 0) [] [] false 0 None)]
+             [TNode 0 [TChoice 0 true [TCase 0 false [TNode 1 []; TChoice 1 false [TCase 0 true [TNode 2 []]; TCase 1 false [TNode 3 []]]];
+                                       TCase 1 false [TNode 4 []]];
+                       TNode 5 []]] [].
+Definition w3_tree : vforest :=
+  [VN 0 [] false false [] [VN 2 [53] true false [] []; VN 5 [107] false false [] []]].
+
+Lemma w3_facts :
+  vschema_ok w3_schema = true /\ uniq_plain w3_schema = true /\
+  impl_validate w3_schema w3_tree = VOk /\ rfc_valid ty_any w3_schema (explicit w3_tree) = false /\
+  rfc_mand_choice w3_schema (explicit w3_tree) = false /\
+  impl_parse_validate w3_schema ty_any (explicit w3_tree) = VErr ENoMandChoice.
+Proof. vm_compute. repeat split; reflexivity. Qed.
+
+Lemma stale_default_refuted : ~ validate_iff_rfc_flags_statement.
+Proof.
+  intro H. destruct w3_facts as [A [B [C [D _]]]]. specialize (H ty_any w3_schema w3_tree A B).
+  assert (H1 : rfc_types ty_any w3_schema (explicit w3_tree) = true) by (vm_compute; reflexivity).
+  assert (H2 : rfc_keys w3_schema (explicit w3_tree) = true) by (vm_compute; reflexivity).
+  specialize (H H1 H2). rewrite C, D in H. destruct H as [H _]. specialize (H eq_refl). discriminate.
+Qed.
